@@ -9,12 +9,12 @@ FAM = {
  "F01-softmax-slice-input": dict(
     what="SOFTMAX whose input is a slice view (STRIDED_SLICE/SPLIT output): softmax.py rebuilds its passes from the parent tensor and drops the read offset/shape, so the NPU reads outside the slice (outside the scratch extent / undefined bytes)",
     ctx=dict(requires_layers=["SOFTMAX"], requires_any=SLICES),
-    sigs={"C02": ["out_of_extent"], "C03": ["uninit_read", "foreign_read"], "C04": ["reads_from_divergence", "async_uninit_read", "final_memory_divergence"],
+    sigs={"C02": ["out_of_extent"], "C03": ["uninit_read", "foreign_read", "foreign_tensor_read"], "C04": ["reads_from_divergence", "async_uninit_read", "final_memory_divergence"],
           "C01": VAL, "C10": VAL}),
  "F02-mean-unit-axis-memcpy": dict(
     what="MEAN over an axis of extent 1 fed by a slice view is lowered to Memcpy (tflite_graph_optimiser.py:2283); dma_feature_map_if_necessary copies the whole parent tensor, overruns the destination / scratch extent and never writes the real output",
     ctx=dict(requires_layers=["MEAN"], requires_any=SLICES),
-    sigs={"C02": ["out_of_extent"], "C03": ["unwritten_output_consumed", "uninit_read"], "C04": ["final_memory_divergence", "reads_from_divergence"],
+    sigs={"C02": ["out_of_extent"], "C03": ["unwritten_output_consumed", "uninit_read", "foreign_tensor_read"], "C04": ["final_memory_divergence", "reads_from_divergence"],
           "C10": ["gap_unwritten_output_consumed", "gap_uninit_read"]}),
  "F02b-mean-unit-axis-drops-rescale": dict(
     what="MEAN over an axis of extent 1 whose output quantisation differs from its input: the operator is turned into Memcpy / bypassed (tflite_graph_optimiser.py:2283) and the requantisation the reference kernel performs is lost (output bytes are the input bytes)",
@@ -23,7 +23,7 @@ FAM = {
  "F03-reshape-folded-into-producer": dict(
     what="an operator followed by RESHAPE whose shapes are recomputed after the reshape was bypassed (LUT activations, 2x-upscaling resize steps): the OFM takes the reshaped shape while the IFM registers still describe the original tensor, so elements beyond IFM_WIDTH0/HEIGHT0 are fetched through the unused tile bases",
     ctx=dict(requires_layers=["RESHAPE"], max_layers=8),
-    sigs={"C02": ["out_of_extent"], "C03": ["uninit_read", "foreign_read", "unwritten_output_consumed"], "C04": ["reads_from_divergence", "async_uninit_read", "async_foreign_read", "final_memory_divergence", "inflight_conflict"],
+    sigs={"C02": ["out_of_extent"], "C03": ["uninit_read", "foreign_read", "unwritten_output_consumed", "foreign_tensor_read"], "C04": ["reads_from_divergence", "async_uninit_read", "async_foreign_read", "final_memory_divergence", "inflight_conflict"],
           "C01": VAL, "C10": VAL}),
  "F04-resize-bilinear-hpc-blockdep": dict(
     what="RESIZE_BILINEAR with half_pixel_centers: the 2x2 depthwise steps read one row/column more than npu_op.ifm.shape (edge replication through the tile bases); calc_blockdep clips its first-job IFM volume to ifm.shape, misses the overlap with the producer's last OFM block and programs BLOCKDEP too large",
@@ -36,7 +36,7 @@ FAM = {
  "F06-slice-offset-scaled-by-stride": dict(
     what="a strided (stride>1) or padded pool/conv that reads through a fused slice offset: Box.transform_with_strides_and_skirt adds the read offset before multiplying by the stride (high_level_command_stream.py:66-101); the IFM box handed to the register generator is wrong (even zero-sized), addresses and BLOCKDEP derived from it are wrong",
     ctx=dict(requires_any=SLICES, max_layers=8, kind_any=["POOL/MAX", "POOL/AVERAGE", "CONV", "DEPTHWISE", None]),
-    sigs={"C02": ["out_of_extent"], "C03": ["uninit_read", "foreign_read"], "C04": ["reads_from_divergence", "async_uninit_read"], "C01": VAL, "C10": VAL}),
+    sigs={"C02": ["out_of_extent"], "C03": ["uninit_read", "foreign_read", "foreign_tensor_read"], "C04": ["reads_from_divergence", "async_uninit_read", "async_foreign_read"], "C01": VAL, "C10": VAL}),
  "F15-second-clamp-replaces-first": dict(
     what="two consecutive clamps (an operator with a fused ReLU-family activation followed by a standalone RELU / RELU6 / RELU_N1_TO_1, or two standalone ones): the later clamp is fused into the producer and replaces the earlier one instead of being intersected with it",
     ctx=dict(min_count=dict(of=["RELU", "RELU6", "RELU_N1_TO_1", "FUSED_RELU", "FUSED_RELU6", "FUSED_RELU_N1_TO_1"], n=2), max_layers=10),
@@ -64,7 +64,7 @@ FAM = {
  "F09-odd-stripe-nearest-upscale": dict(
     what="a 2x nearest-neighbour upscaling step (RESIZE_NEAREST_NEIGHBOR lowered to pool operations) striped in a cascade with an odd OFM stripe height: IFM_HEIGHT0 is floor(h/2) although ceil(h/2)+ rows are fetched, so the last row comes through an unused tile base (address 0)",
     ctx=dict(requires_layers=["RESIZE_NEAREST_NEIGHBOR"], max_layers=8, kind_any=["POOL/AVERAGE", None]),
-    sigs={"C02": ["out_of_extent"], "C03": ["uninit_read", "foreign_read"], "C04": ["reads_from_divergence", "async_uninit_read"], "C01": VAL, "C10": VAL}),
+    sigs={"C02": ["out_of_extent"], "C03": ["uninit_read", "foreign_read", "foreign_tensor_read"], "C04": ["reads_from_divergence", "async_uninit_read"], "C01": VAL, "C10": VAL}),
 }
 FIXED = [
  "fixed: property=C13 54fac24 every network with weights aborted with OverflowError (int32 memory histogram minus 1<<32 under NumPy 2), live_range.py:149 / scheduler.py:667",
